@@ -322,6 +322,43 @@ func init() {
 		Explanation: "Decides that columns are mapped by field identity (name and expression) with aligned positional builders, and that a field change is propagated: one identity across Equals/outIdxsFor/info/coalescing and writer/reader agreement of the file header; exactly-one append per input element in every positional builder; applyFields → fieldUpdates → new memstore before the next insert; the scan-continuation rule (a row without requested columns must not end the scan); raw pass-through gated on the file's own header.",
 		NotDecided:  []string{"end-to-end values across alteration histories", "WHERE changes apply only to points processed afterwards (applyWhere swaps the predicate under a mutex; not modelled)"},
 		Assumptions: []string{"Field.String() is injective on (name, expression rendering)"},
-		Rules:       []func(*Ctx){func(c *Ctx) { ruleC15a(c, "C15.a") }, func(c *Ctx) { ruleC15b(c, "C15.b") }, func(c *Ctx) { ruleC15c(c, "C15.c") }, func(c *Ctx) { ruleC03a(c, "C15.d") }, func(c *Ctx) { ruleC03b(c, "C15.e") }},
+		Rules:       []func(*Ctx){func(c *Ctx) { ruleC15a(c, "C15.a") }, func(c *Ctx) { ruleC15b(c, "C15.b") }, func(c *Ctx) { ruleC15c(c, "C15.c") }, func(c *Ctx) { ruleC03a(c, "C15.d") }, func(c *Ctx) { ruleC03b(c, "C15.e") }, func(c *Ctx) { ruleC15f(c, "C15.f") }},
 	})
+}
+
+// ruleC15f: an ALTER's new WHERE is adopted whatever it prints like.
+func ruleC15f(c *Ctx, rule string) {
+	c.describe(rule, "dom: (*table).applyWhere stores the new WHERE expression on every path, or skips the store only when old and new are the identical expression value (interface identity) — never on a comparison of renderings, which goexpr prints without quotes so that distinct predicates can print alike")
+	aw := c.need(rule, "(*z.table).applyWhere")
+	if aw == nil {
+		return
+	}
+	var wp *ssa.Parameter
+	for _, p := range aw.Params {
+		if typeStr(p.Type()) == "github.com/getlantern/goexpr.Expr" {
+			wp = p
+		}
+	}
+	var sts []*ssa.Store
+	for _, st := range fieldStores(aw, "z/sql.Query.Where") {
+		sts = append(sts, st)
+	}
+	if wp == nil || len(sts) != 1 {
+		c.undecided(rule, "applyWhere stores the new WHERE", aw.Pos(), "expected one goexpr.Expr parameter and one store to the table query's Where (found "+itoa(len(sts))+")")
+		return
+	}
+	st := sts[0]
+	ok := st.Val == ssa.Value(wp)
+	why := ""
+	for _, g := range guardsOf(st.Block()) {
+		// only 'old != new' on the expression values themselves may guard the store
+		b, isB := g.v.(*ssa.BinOp)
+		identity := isB && (b.Op == token.NEQ || b.Op == token.EQL) &&
+			((b.X == ssa.Value(wp) && isFieldLoad(b.Y, "z/sql.Query.Where")) || (b.Y == ssa.Value(wp) && isFieldLoad(b.X, "z/sql.Query.Where")))
+		if !identity {
+			ok = false
+			why = " (guarded by a condition that is not the identity comparison of the two expressions)"
+		}
+	}
+	c.check(rule, "applyWhere stores the new WHERE", st.Pos(), ok, "t.Where = where on every path (or skipped only for the identical value)", "the new WHERE is not always installed"+why+": a corrected predicate that renders like the old one (goexpr prints string constants without quotes: d IN ('x, y') vs d IN ('x', 'y')) is ignored and points keep being filtered by the old WHERE")
 }
